@@ -4,6 +4,7 @@ import (
 	"context"
 	"fmt"
 	"strings"
+	"sync"
 )
 
 type workerKey struct{}
@@ -32,6 +33,8 @@ var stmtCache = struct {
 	m map[string][]parsedStmt
 }{m: map[string][]parsedStmt{}}
 
+var stmtCacheMu sync.Mutex
+
 type parsedStmt struct {
 	text   string
 	st     Stmt
@@ -40,7 +43,9 @@ type parsedStmt struct {
 }
 
 func (db *DB) parseScript(sql string) ([]parsedStmt, error) {
-	// called under db.mu
+	// the cache is shared by every DB of the process
+	stmtCacheMu.Lock()
+	defer stmtCacheMu.Unlock()
 	if ps, ok := stmtCache.m[sql]; ok {
 		return ps, nil
 	}
